@@ -7,6 +7,7 @@ import Replicon.Proofs.Session
 import Replicon.Proofs.KindsSession
 import Replicon.Proofs.ClientKinds
 import Replicon.Proofs.TwoWay
+import Replicon.Proofs.Jump
 /-
 C03 — Structural changes reach clients atomically and in server order.
 
@@ -339,5 +340,65 @@ example :
     ((Joint.frame (Joint.run { srv := s0 } ops).1 true 10 (fun _ => [])).1.srv.clients.map fun x => (x.1, keys x.2))
       = [(0, [5]), (1, [5])] := by
   refine ⟨by decide, by decide, by decide, by decide, by decide, by decide⟩
+
+/-- **Entities and component kinds over ALL histories in which the tick also advances by more than
+one** (`Proofs/Jump.lean`; `ServerTick::increment_by` under the manual tick policy, the trace
+checker's `sframe tick=K`).  After any history of ordinary operations and jumps of the tick by any
+amounts (entity identifiers not reused, a stopped server sees a frame before a restart, no pre-spawn
+mappings), whatever frame comes next: if `send_replication` runs in it then for every authorized
+client the client model fed the session's update messages in order is well-formed and holds
+exactly the marked entities visible to the client (`C03_history_session` with jumps), and the
+records of those messages replay to exactly the replicated component kinds the server entity
+carries, as do the component kinds on the client model's entity (`C03_history_components`, both
+sides of the wire, with jumps).  None of the invariants
+behind the structure theorems reads the value of the tick. -/
+theorem C03_history_with_tick_jumps (s0 : Server) (hw : s0.world = []) (hc0 : s0.clients = [])
+    (hb : s0.removalBuf = []) (ht : s0.lastRun < s0.now) (ops : List Joint.OpJ)
+    (hl : Joint.LegalJ { srv := s0 } ops) (ticked : Bool) (ms : Nat) (parts : Nat → List (List Nat))
+    (hr : (Joint.runLogJ { srv := s0 } (fun _ => []) ops).1.srv.running = true)
+    (hc : (preRun (Joint.runLogJ { srv := s0 } (fun _ => []) ops).1.srv ticked ms).tickChanged = true) :
+    ∀ x ∈ (Joint.step (Joint.runLogJ { srv := s0 } (fun _ => []) ops).1 (.frame ticked ms parts)).1.srv.clients,
+      x.2.authorized = true →
+      (WF (Joint.replay (Joint.logStep (Joint.runLogJ { srv := s0 } (fun _ => []) ops).1
+            (Joint.runLogJ { srv := s0 } (fun _ => []) ops).2 (.frame ticked ms parts) x.1)) ∧
+       ∀ se, held (Joint.replay (Joint.logStep (Joint.runLogJ { srv := s0 } (fun _ => []) ops).1
+            (Joint.runLogJ { srv := s0 } (fun _ => []) ops).2 (.frame ticked ms parts) x.1)) se ↔
+         marked (Joint.step (Joint.runLogJ { srv := s0 } (fun _ => []) ops).1 (.frame ticked ms parts)).1.srv.world se ∧
+         Vis.isVisible (Joint.step (Joint.runLogJ { srv := s0 } (fun _ => []) ops).1 (.frame ticked ms parts)).1.srv.white
+           (cell x.2 se) = true) ∧
+      (∀ e, e ∈ keys x.2 → ∀ ent,
+        (e, ent) ∈ (Joint.step (Joint.runLogJ { srv := s0 } (fun _ => []) ops).1 (.frame ticked ms parts)).1.srv.world →
+        ∀ k, k ∈ ghostKinds (Joint.logStep (Joint.runLogJ { srv := s0 } (fun _ => []) ops).1
+            (Joint.runLogJ { srv := s0 } (fun _ => []) ops).2 (.frame ticked ms parts) x.1) e ↔
+          k ∈ presentKinds (Joint.step (Joint.runLogJ { srv := s0 } (fun _ => []) ops).1 (.frame ticked ms parts)).1.srv ent) ∧
+      (∀ e, e ∈ keys x.2 → ∀ ent,
+        (e, ent) ∈ (Joint.step (Joint.runLogJ { srv := s0 } (fun _ => []) ops).1 (.frame ticked ms parts)).1.srv.world →
+        ∀ k, k ∈ kindsOn (Joint.replay (Joint.logStep (Joint.runLogJ { srv := s0 } (fun _ => []) ops).1
+            (Joint.runLogJ { srv := s0 } (fun _ => []) ops).2 (.frame ticked ms parts) x.1)) e ↔
+          k ∈ presentKinds (Joint.step (Joint.runLogJ { srv := s0 } (fun _ => []) ops).1 (.frame ticked ms parts)).1.srv ent) :=
+  Joint.session_with_jumps s0 hw hc0 hb ht ops hl ticked ms parts hr hc
+
+/-- Non-vacuity of `C03_history_with_tick_jumps`: a history with jumps of 127 and 4294967290 ticks
+(the update message of the last frame carries tick 4294967420, beyond the 32-bit range: the model's
+ticks are unbounded), a removal and a hidden entity; the hypotheses hold, the replayed client holds
+entity 5 only and its replayed kinds are [1]. -/
+example :
+    let s0 : Server := { rates := [(0, .every), (1, .every)] }
+    let ops : List Joint.OpJ :=
+      [.op .start, .op (.connect 0 true), .op (.spawn 5 true [(0, 7), (1, 2)]), .op (.spawn 6 true [(1, 1)]),
+       .op (.frame true 10 (fun _ => [])), .jump 127, .op (.remove 5 0), .op (.frame true 10 (fun _ => [])),
+       .jump 4294967290, .op (.vis 0 6 false)]
+    Joint.LegalJ { srv := s0 } ops ∧
+    (Joint.runLogJ { srv := s0 } (fun _ => []) ops).1.srv.running = true ∧
+    (preRun (Joint.runLogJ { srv := s0 } (fun _ => []) ops).1.srv true 10).tickChanged = true ∧
+    s0.lastRun < s0.now ∧
+    (Joint.step (Joint.runLogJ { srv := s0 } (fun _ => []) ops).1 (.frame true 10 (fun _ => []))).1.srv.tick = 4294967420 ∧
+    (Joint.replay (Joint.logStep (Joint.runLogJ { srv := s0 } (fun _ => []) ops).1
+        (Joint.runLogJ { srv := s0 } (fun _ => []) ops).2 (.frame true 10 (fun _ => [])) 0)).s2c.map (·.1) = [5] ∧
+    ghostKinds (Joint.logStep (Joint.runLogJ { srv := s0 } (fun _ => []) ops).1
+        (Joint.runLogJ { srv := s0 } (fun _ => []) ops).2 (.frame true 10 (fun _ => [])) 0) 5 = [1] ∧
+    kindsOn (Joint.replay (Joint.logStep (Joint.runLogJ { srv := s0 } (fun _ => []) ops).1
+        (Joint.runLogJ { srv := s0 } (fun _ => []) ops).2 (.frame true 10 (fun _ => [])) 0)) 5 = [1] := by
+  refine ⟨by decide, by decide, by decide, by decide, by decide, by decide, by decide, by decide⟩
 
 end Replicon.C03
